@@ -140,7 +140,7 @@ class DPFSLevel3FileIO(RawIOBase):
     @_raise_if_level_closed
     def read(self, size: int = -1) -> bytes:
         remaining = max(self._lv3.size - self._seek, 0)
-        if size < 0 or size > remaining:
+        if size is None or size < 0 or size > remaining:
             size = remaining
         if size == 0:
             return b''
